@@ -198,7 +198,10 @@ def _deps_failures():
 # (unit, probe name, function the clauses belong to, source location)
 PROBED = (('normpath', 'normpath', 'normpath', '/src/helpers.rs:normpath'),
           ('relpath', 'relpath', 'relpath', '/src/state.rs:relpath'),
-          ('locks', 'cycles', 'check', '/src/cycles.rs:check'))
+          ('locks', 'cycles', 'check', '/src/cycles.rs:check'),
+          # logs.rs Meta through its exported API: 7330 records written the way Display writes them (11 kinds x 5 pids x 4
+          # timestamps x 12 texts; done records for every status -255..255 and the i32 extremes x 9 names incl. spaces)
+          ('logs', 'logmeta', 'Meta', '/src/logs.rs:Meta'))
 
 
 def _path_failures(probe):
@@ -725,7 +728,7 @@ def conformance(prop, unit_names, pins_changed, labels_props):
             f = _path_failures(probe_) or {}
             f.pop('__summary__', None)
             for label, hits in f.items():
-                props = labels_props.get((unit, label), ['C15'])
+                props = labels_props.get((unit, label), ['C18'] if unit == 'logs' else ['C15'])
                 if hits and prop in props:
                     out.append(dict(oid='%s/%s/%s' % (unit, fn_, label), msg='contract clause fails on the real code for a concrete input (probe %s)' % probe_,
                                     where=REPO + where, site=None, text=hits[0]['clause'], rendered=json.dumps(hits[:6], indent=1),
@@ -759,7 +762,7 @@ def conformance(prop, unit_names, pins_changed, labels_props):
     return out
 
 
-BOUNDED = {'C15': ('normpath', 'relpath'), 'C12': ('locks',)}
+BOUNDED = {'C15': ('normpath', 'relpath'), 'C12': ('locks',), 'C18': ('logs',)}
 
 
 def bounded(prop, unit_names, labels_props):
